@@ -27,6 +27,8 @@ type table struct {
 	key     any // string or int
 	size    int
 	columns []*table
+	kind    byte // arrayNode or mapNode once a container has been added
+	mixed   bool // both arrays and maps in the same column, can not be aligned
 }
 
 func (n *node) subKind() (kind byte) {
@@ -48,11 +50,17 @@ func (n *node) genTables(lazy bool) *table {
 		for _, m := range n.members {
 			m.updateArrayTable(&t, lazy)
 		}
+		if t.mixed {
+			return nil
+		}
 		return &t
 	case mapNode:
 		t := table{}
 		for _, m := range n.members {
 			m.updateMapTable(&t, lazy)
+		}
+		if t.mixed {
+			return nil
 		}
 		return &t
 	default:
@@ -61,6 +69,10 @@ func (n *node) genTables(lazy bool) *table {
 }
 
 func (n *node) updateArrayTable(t *table, lazy bool) {
+	if t.kind == mapNode {
+		t.mixed = true
+	}
+	t.kind = arrayNode
 	for i, m := range n.members {
 		var col *table
 		for _, s := range t.columns {
@@ -82,6 +94,9 @@ func (n *node) updateArrayTable(t *table, lazy bool) {
 		case mapNode:
 			m.updateMapTable(col, lazy)
 		}
+		if col.mixed {
+			t.mixed = true
+		}
 	}
 	sort.Slice(t.columns, func(i, j int) bool {
 		ki, _ := t.columns[i].key.(int)
@@ -100,6 +115,10 @@ func (n *node) updateArrayTable(t *table, lazy bool) {
 }
 
 func (n *node) updateMapTable(t *table, lazy bool) {
+	if t.kind == arrayNode {
+		t.mixed = true
+	}
+	t.kind = mapNode
 	for _, m := range n.members {
 		k := string(m.key)
 		var col *table
@@ -121,6 +140,9 @@ func (n *node) updateMapTable(t *table, lazy bool) {
 			m.updateArrayTable(col, lazy)
 		case mapNode:
 			m.updateMapTable(col, lazy)
+		}
+		if col.mixed {
+			t.mixed = true
 		}
 	}
 	sort.Slice(t.columns, func(i, j int) bool {
